@@ -56,6 +56,8 @@ pub fn run(op: &str, a: &[&str]) -> Option<String> {
         "table" => table_scenario(a),
         "beacon_enc" | "beacon_dec" | "beacon_rt" => beacon_op(op, a),
         "keyrt" | "genkey" => key_op(op, a),
+        "ni_enc" | "ni_dec" | "ni_rt" => ni_op(op, a),
+        "im_parse" | "rot_dec" | "rot_enc" => codec_op(op, a),
         _ => return None,
     })
 }
@@ -242,6 +244,152 @@ pub fn key_op(op: &str, a: &[&str]) -> String {
             };
             let trusts_self = (hcm::trusted_keys(&c1) == vec![hcm::own_public_key(&c2)]) as u8;
             format!("ok same={} printed={} accepted={} frompriv={} trust={} pub={}", same, printed_matches, accepted, from_priv, trusts_self, hex(&hcm::own_public_key(&c1)))
+        }
+        _ => unreachable!(),
+    }
+}
+
+// ---- NodeInfo codec (C16) ---------------------------------------------------------------------
+use crate::messages::{NodeInfo, PeerInfo};
+use crate::util::MsgBuffer;
+
+pub fn addrs_str(l: &[SocketAddr]) -> String {
+    if l.is_empty() {
+        return "-".into();
+    }
+    l.iter().map(|a| hex(&sockaddr_bytes(a))).collect::<Vec<_>>().join(",")
+}
+
+pub fn parse_addrs(s: &str) -> Vec<SocketAddr> {
+    if s == "-" || s.is_empty() {
+        return vec![];
+    }
+    s.split(',').map(|x| sockaddr_of(&unhex(x))).collect()
+}
+
+pub fn ni_to_str(n: &NodeInfo) -> String {
+    let peers = if n.peers.is_empty() {
+        "-".to_string()
+    } else {
+        n.peers
+            .iter()
+            .map(|p| format!("{}:{}", p.node_id.map(|i| hex(&i)).unwrap_or("-".into()), addrs_str(&p.addrs)))
+            .collect::<Vec<_>>()
+            .join("/")
+    };
+    let claims = if n.claims.is_empty() {
+        "-".to_string()
+    } else {
+        n.claims.iter().map(|r| format!("{}/{}", addr_s(&r.base), r.prefix_len)).collect::<Vec<_>>().join(",")
+    };
+    format!(
+        "node={};peers={};claims={};to={};addrs={}",
+        hex(&n.node_id),
+        peers,
+        claims,
+        n.peer_timeout.map(|t| t.to_string()).unwrap_or("-".into()),
+        addrs_str(&n.addrs)
+    )
+}
+
+pub fn ni_from_str(s: &str) -> NodeInfo {
+    let mut node_id = [0u8; 16];
+    let mut peers = smallvec::SmallVec::new();
+    let mut claims = RangeList::new();
+    let mut peer_timeout = None;
+    let mut addrs = smallvec::SmallVec::new();
+    for part in s.split(';') {
+        let (k, v) = part.split_once('=').unwrap();
+        match k {
+            "node" => node_id.copy_from_slice(&unhex(v)),
+            "peers" => {
+                if v != "-" {
+                    for p in v.split('/') {
+                        let (id, a) = p.split_once(':').unwrap();
+                        let nid = if id == "-" {
+                            None
+                        } else {
+                            let mut x = [0u8; 16];
+                            x.copy_from_slice(&unhex(id));
+                            Some(x)
+                        };
+                        peers.push(PeerInfo { node_id: nid, addrs: parse_addrs(a).into_iter().collect() });
+                    }
+                }
+            }
+            "claims" => {
+                if v != "-" {
+                    for c in v.split(',') {
+                        let (b, p) = c.split_once('/').unwrap();
+                        claims.push(Range { base: mk_addr(&unhex(b)), prefix_len: num(p) });
+                    }
+                }
+            }
+            "to" => {
+                if v != "-" {
+                    peer_timeout = Some(num(v))
+                }
+            }
+            "addrs" => addrs = parse_addrs(v).into_iter().collect(),
+            _ => panic!("bad ni field"),
+        }
+    }
+    NodeInfo { node_id, peers, claims, peer_timeout, addrs }
+}
+
+pub fn ni_op(op: &str, a: &[&str]) -> String {
+    match op {
+        "ni_enc" => {
+            let n = ni_from_str(a[0]);
+            let mut buf = MsgBuffer::new(100);
+            n.encode(&mut buf);
+            format!("ok {}", hex(buf.message()))
+        }
+        "ni_dec" => match NodeInfo::decode(Cursor::new(unhex(a[0]))) {
+            Ok(n) => format!("ok {}", ni_to_str(&n)),
+            Err(_) => "err".into(),
+        },
+        // encode, append a tail (a[1]), decode
+        "ni_rt" => {
+            let n = ni_from_str(a[0]);
+            let mut buf = MsgBuffer::new(100);
+            n.encode(&mut buf);
+            let mut d = buf.message().to_vec();
+            d.extend_from_slice(&unhex(a[1]));
+            match NodeInfo::decode(Cursor::new(d)) {
+                Ok(n2) => format!("ok {} {}", hex(buf.message()), ni_to_str(&n2)),
+                Err(_) => format!("err {}", hex(buf.message())),
+            }
+        }
+        _ => unreachable!(),
+    }
+}
+
+// ---- handshake / rotation message codecs (C16) ------------------------------------------------
+pub fn codec_op(op: &str, a: &[&str]) -> String {
+    match op {
+        // im_parse <bodyhex> <sigok 0/1> <hashok 0/1> <tailhex> <truncate|-> <trusted 0/1>
+        "im_parse" => {
+            let body = unhex(a[0]);
+            let seed = crate::verif_driver::conn::key_seed(1);
+            let pk = hcm::seed_public_key(&seed);
+            let mut pka = [0u8; 32];
+            pka.copy_from_slice(&pk);
+            let other = hcm::seed_public_key(&crate::verif_driver::conn::key_seed(2));
+            let mut oka = [0u8; 32];
+            oka.copy_from_slice(&other);
+            let trusted: Vec<[u8; 32]> = if a[5] == "1" { vec![oka, pka] } else { vec![oka] };
+            let trunc = if a[4] == "-" { None } else { Some(num::<usize>(a[4])) };
+            let (msg, signed, sig, res) = crate::crypto::verif_init::build_and_parse(&body, &seed, &trusted, a[1] == "1", a[2] == "1", &unhex(a[3]), trunc);
+            format!("{} MSG={} SIGNED={} SIG={}", res, hex(&msg), signed, hex(&sig))
+        }
+        "rot_dec" => match crate::crypto::verif_rotate::rot_decode(&unhex(a[0])) {
+            Some((id, p, c)) => format!("ok {} {} {}", id, hex(&p), c.map(|c| hex(&c)).unwrap_or("none".into())),
+            None => "err".into(),
+        },
+        "rot_enc" => {
+            let c = if a[2] == "none" { None } else { Some(unhex(a[2])) };
+            format!("ok {}", hex(&crate::crypto::verif_rotate::rot_encode(num(a[0]), &unhex(a[1]), c.as_deref())))
         }
         _ => unreachable!(),
     }
